@@ -440,7 +440,268 @@ func (a *effAnalysis) keyStr(v ssa.Value) string {
 		}
 		return c.ExactString()
 	}
+	if alts := localColumnConsts(v); len(alts) > 0 {
+		return strings.Join(alts, "|") // one of the entries of a local literal table (walked by a loop)
+	}
 	return "*"
+}
+
+// localColumnConsts: the string constants v can be when it is read out of local literal tables (arrays, slices
+// and structs written as literals, possibly nested, possibly copied into a loop variable) at positions picked
+// by non-constant indices; nil when v is anything else.
+func localColumnConsts(v ssa.Value) []string {
+	vals, ok := possibleConsts(v, 0)
+	if !ok || len(vals) == 0 {
+		return nil
+	}
+	set := map[string]bool{}
+	for _, x := range vals {
+		str, isS := x.(string)
+		if !isS {
+			return nil
+		}
+		set[str] = true
+	}
+	var out []string
+	for k := range set {
+		out = append(out, k)
+	}
+	sort.Strings(out)
+	return out
+}
+
+// constAggregate: the content of a local array or struct written as a literal (every store to it has constant
+// indices and stores a constant or another such literal).
+func constAggregate(al *ssa.Alloc, depth int) (interface{}, bool) {
+	if depth > 4 || al.Parent() == nil {
+		return nil, false
+	}
+	t := al.Type().Underlying().(*types.Pointer).Elem()
+	var cur interface{}
+	switch t.Underlying().(type) {
+	case *types.Struct:
+		cur = absStruct{t, map[int]interface{}{}}
+	case *types.Array:
+		cur = absArray{t, map[int64]interface{}{}}
+	default:
+		return nil, false
+	}
+	n := 0
+	for _, b := range al.Parent().Blocks {
+		for _, ins := range b.Instrs {
+			st, ok := ins.(*ssa.Store)
+			if !ok {
+				continue
+			}
+			a2, steps := localPath(st.Addr)
+			if a2 != al {
+				continue
+			}
+			vals, ok := possibleConsts(st.Val, depth+1)
+			if !ok || len(vals) != 1 {
+				return nil, false
+			}
+			if len(steps) == 0 {
+				cur = vals[0]
+				n++
+				continue
+			}
+			// set along constant steps
+			var set func(c interface{}, t types.Type, steps []pathStep, v interface{}) (interface{}, bool)
+			set = func(c interface{}, t types.Type, steps []pathStep, v interface{}) (interface{}, bool) {
+				if len(steps) == 0 {
+					return v, true
+				}
+				et := elemType(t, steps[0])
+				if et == nil {
+					return nil, false
+				}
+				switch cc := c.(type) {
+				case absStruct:
+					if cc.f == nil {
+						cc.f = map[int]interface{}{}
+					}
+					sub := cc.f[steps[0].field]
+					if sub == nil {
+						sub, _ = zeroValue(et)
+					}
+					nv, ok := set(sub, et, steps[1:], v)
+					if !ok {
+						return nil, false
+					}
+					cc.f[steps[0].field] = nv
+					return cc, true
+				case absArray:
+					k, isK := constInt(steps[0].index)
+					if !isK {
+						return nil, false
+					}
+					if cc.e == nil {
+						cc.e = map[int64]interface{}{}
+					}
+					sub := cc.e[k]
+					if sub == nil {
+						sub, _ = zeroValue(et)
+					}
+					nv, ok := set(sub, et, steps[1:], v)
+					if !ok {
+						return nil, false
+					}
+					cc.e[k] = nv
+					return cc, true
+				}
+				return nil, false
+			}
+			nv, ok := set(cur, t, steps, vals[0])
+			if !ok {
+				return nil, false
+			}
+			cur = nv
+			n++
+		}
+	}
+	return cur, n > 0
+}
+
+// possibleConsts: the constant values v can take when it is a constant, or read out of local literals.
+func possibleConsts(v ssa.Value, depth int) ([]interface{}, bool) {
+	if depth > 8 {
+		return nil, false
+	}
+	all := func(c interface{}) []interface{} {
+		switch cc := c.(type) {
+		case absArray:
+			n := cc.t.Underlying().(*types.Array).Len()
+			var out []interface{}
+			for i := int64(0); i < n; i++ {
+				if e, ok := cc.e[i]; ok {
+					out = append(out, e)
+				} else if z, ok := zeroValue(cc.t.Underlying().(*types.Array).Elem()); ok {
+					out = append(out, z)
+				}
+			}
+			return out
+		}
+		return nil
+	}
+	step := func(in []interface{}, st pathStep) ([]interface{}, bool) {
+		var out []interface{}
+		for _, c := range in {
+			switch cc := c.(type) {
+			case absStruct:
+				if st.field < 0 {
+					return nil, false
+				}
+				if e, ok := cc.f[st.field]; ok {
+					out = append(out, e)
+				} else if z, ok := zeroValue(elemType(cc.t, st)); ok {
+					out = append(out, z)
+				} else {
+					return nil, false
+				}
+			case absArray:
+				if st.index == nil {
+					return nil, false
+				}
+				if k, isK := constInt(st.index); isK {
+					if e, ok := cc.e[k]; ok {
+						out = append(out, e)
+					} else if z, ok := zeroValue(cc.t.Underlying().(*types.Array).Elem()); ok {
+						out = append(out, z)
+					}
+				} else {
+					out = append(out, all(cc)...)
+				}
+			default:
+				return nil, false
+			}
+		}
+		return out, true
+	}
+	switch x := v.(type) {
+	case *ssa.Const:
+		if x.Value == nil {
+			return nil, false
+		}
+		switch x.Value.Kind() {
+		case constant.String:
+			return []interface{}{constant.StringVal(x.Value)}, true
+		case constant.Int:
+			k, _ := constant.Int64Val(x.Value)
+			return []interface{}{k}, true
+		case constant.Bool:
+			return []interface{}{constant.BoolVal(x.Value)}, true
+		}
+		return nil, false
+	case *ssa.UnOp:
+		if x.Op != token.MUL {
+			return nil, false
+		}
+		al, steps := localPath(x.X)
+		if al == nil {
+			return nil, false
+		}
+		var base []interface{}
+		if agg, ok := constAggregate(al, depth+1); ok {
+			base = []interface{}{agg}
+		} else {
+			// a local variable holding copies of such values (the loop variable of a range)
+			if al.Referrers() == nil {
+				return nil, false
+			}
+			for _, ref := range *al.Referrers() {
+				if st, ok := ref.(*ssa.Store); ok && st.Addr == ssa.Value(al) {
+					vals, ok := possibleConsts(st.Val, depth+1)
+					if !ok {
+						return nil, false
+					}
+					base = append(base, vals...)
+				}
+			}
+			if len(base) == 0 {
+				return nil, false
+			}
+		}
+		for _, st := range steps {
+			var ok bool
+			base, ok = step(base, st)
+			if !ok {
+				return nil, false
+			}
+		}
+		return base, true
+	case *ssa.Index:
+		base, ok := possibleConsts(x.X, depth+1)
+		if !ok {
+			return nil, false
+		}
+		return step(base, pathStep{field: -1, index: x.Index})
+	case *ssa.Field:
+		base, ok := possibleConsts(x.X, depth+1)
+		if !ok {
+			return nil, false
+		}
+		return step(base, pathStep{field: x.Field})
+	}
+	return nil, false
+}
+
+func soleStoredValue(cell *ssa.Alloc) ssa.Value {
+	if cell.Referrers() == nil {
+		return nil
+	}
+	var v ssa.Value
+	n := 0
+	for _, ref := range *cell.Referrers() {
+		if st, ok := ref.(*ssa.Store); ok && st.Addr == ssa.Value(cell) {
+			v = st.Val
+			n++
+		}
+	}
+	if n == 1 {
+		return v
+	}
+	return nil
 }
 
 func (a *effAnalysis) origin(v ssa.Value) Origin {
